@@ -277,6 +277,37 @@ func runC19(r *vk.Run) {
 			}
 			c.Count("same_regex_text_in_both_positions", 1)
 		}
+		if c.Idx%10 == 7 {
+			// JSON members that are arrays (a label holding a list), and several records of ONE stream whose
+			// lines fail to parse in different ways (same labels but for the error details): a matcher and its
+			// negation still split the result, and a filter leaves every record it keeps as q returned it
+			arr := []string{`{"tags":["dev","prod"],"level":"info"}`, `{"tags":[],"level":"warn"}`, `{"tags":["prod"]}`, `{"tags":["dev"]}`, `{"tags":"prod"}`, `{"tags":[["prod"]]}`, `{"tags":[1,2]}`, `{"tags":["prod","prod"]}`, `{"tags":[""]}`, `{"tags":null}`}
+			broken := []string{`{"tags":["dev"`, `not json at all`, `{"level":"info"`, `{"level" "x"}`, `[1,2`, `{"a":1}{`, `{"k":oops}`, `first`, `second line`}
+			shared := copyMap(ds.Recs[0].Labels)
+			for i := range ds.Recs {
+				switch rng.Intn(3) {
+				case 0:
+					ds.Recs[i].Line = vk.Pick(rng, arr)
+				case 1:
+					ds.Recs[i].Line = vk.Pick(rng, broken)
+					ds.Recs[i].Labels = copyMap(shared)
+				}
+			}
+			qt = `{app=~".+"} | drop msg | json`
+			base, err = c19Eval(c, ds, n, qt)
+			switch rng.Intn(3) {
+			case 0:
+				v := quoteLogQL(vk.Pick(rng, []string{"prod", "dev", "", "[]", `["prod"]`, `["dev","prod"]`}))
+				f = filt{Text: "| tags=" + v, Neg: "| tags!=" + v, Kind: "label-eq"}
+			case 1:
+				re := quoteLogQL(vk.Pick(rng, []string{"pr.*", ".*prod.*", "", ".*", "dev|prod", `\[.*`, ".+"}))
+				f = filt{Text: "| tags=~" + re, Neg: "| tags!~" + re, Kind: "label-regex"}
+			default:
+				v := quoteLogQL(vk.Pick(rng, []string{"first", "not json", `{"tags":["dev"`, `"level"`, "oops", "[1,2", "second"}))
+				f = filt{Text: "|= " + v, Neg: "!= " + v, Kind: "line-contains"}
+			}
+			c.Count("array_and_error_detail_cases", 1)
+		}
 		det := func(extra map[string]any) map[string]any {
 			m := map[string]any{"q": qt, "f": f, "g": g, "records": ds.Recs}
 			for k, v := range extra {
@@ -608,6 +639,7 @@ func runC19(r *vk.Run) {
 	r.Require("multiset_partitions", 30)
 	r.Require("multiset_partitions_over_5000_records", 2)
 	r.Require("law:subset", 1500)
+	r.Require("array_and_error_detail_cases", 300)
 	r.Require("law:partition_nontrivial", 150)
 	r.Require("law:commute", 1500)
 	r.Require("law:and", 300)
